@@ -100,6 +100,29 @@ def solver_defaults_rule(cx):
           'every minimisation runs LevenbergMarquardt::new() unmodified: the default ftol / xtol / gtol are relative and tight, a loosened one stops short of the stationary point '
           '(circle far from the origin, pose with a large lever arm)', found='; '.join(bad) or f'{len(sites)} minimize sites')
 
+def from_3_points_rules(cx):
+    """shared with C11: Arc2::three_points builds its circle through from_3_points (a collinearity tolerance scaled by the distance from the ORIGIN rejects
+    small well-conditioned triples far from it)"""
+    # ---------------------------------------------------------------- from_3_points
+    b = cx.fn('geom2::circle2::Circle2::from_3_points')
+    if b:
+        rets = cx.rets(b)
+        okg = True
+        for s, d in rets:
+            if d[0] == 'agg' and d[1].endswith('Result::Err'):
+                okg = okg and cx.guarded(b, s.bb, '(lt (call f64::abs $det) 1e-06)', True) is not None
+            elif d[0] == 'agg' and d[1].endswith('Result::Ok'):
+                g = cx.guarded(b, s.bb, '(lt (call f64::abs $det) 1e-06)', False)
+                okg = okg and g is not None
+                e = match('(agg * (0 (call *Circle2::new $cx $cy $r)))', d)
+                okr = e is not None and any(match(f'(call f64::sqrt (add (call f64::powi (sub $cx (field x (param {p}))) 2) (call f64::powi (sub $cy (field y (param {p}))) 2)))', e['r'], e) is not None for p in ('p0', 'p1', 'p2'))
+                cx.ob('EXPR', 'from_3_points:radius', okr, 'the radius is the distance from the computed centre to one of the three points', where=s)
+                if e and g:
+                    cx.ob('EXPR', 'from_3_points:det-shared', match('(div _ $det)', e['cx'], g) is not None and match('(div _ $det)', e['cy'], g) is not None,
+                          'the determinant that is tested for collinearity is the one both centre coordinates are divided by', where=s)
+        cx.ob('GUARD', 'from_3_points:collinear', okg and len(rets) == 2, 'Err exactly under |det| < 1e-6; the circle is built only otherwise', where=b.file)
+
+
 def run(cx):
     from rules.C17 import try_from_stores_input
     try_from_stores_input(cx)
@@ -293,24 +316,7 @@ def run(cx):
             ok = g is not None and match('(agg * (0 (field circle (field 0 $res))))', d, g) is not None and \
                 match('(call LevenbergMarquardt::minimize _ (call *CircleFit::new (param points) (param mode) (param initial)))', g['res']) is not None
         cx.ob('GUARD', 'fit_circle:result', ok, 'Ok is returned only when the solver reports success, and it carries the circle of the MINIMISED problem', where=b.file)
-    # ---------------------------------------------------------------- from_3_points
-    b = cx.fn('geom2::circle2::Circle2::from_3_points')
-    if b:
-        rets = cx.rets(b)
-        okg = True
-        for s, d in rets:
-            if d[0] == 'agg' and d[1].endswith('Result::Err'):
-                okg = okg and cx.guarded(b, s.bb, '(lt (call f64::abs $det) 1e-06)', True) is not None
-            elif d[0] == 'agg' and d[1].endswith('Result::Ok'):
-                g = cx.guarded(b, s.bb, '(lt (call f64::abs $det) 1e-06)', False)
-                okg = okg and g is not None
-                e = match('(agg * (0 (call *Circle2::new $cx $cy $r)))', d)
-                okr = e is not None and any(match(f'(call f64::sqrt (add (call f64::powi (sub $cx (field x (param {p}))) 2) (call f64::powi (sub $cy (field y (param {p}))) 2)))', e['r'], e) is not None for p in ('p0', 'p1', 'p2'))
-                cx.ob('EXPR', 'from_3_points:radius', okr, 'the radius is the distance from the computed centre to one of the three points', where=s)
-                if e and g:
-                    cx.ob('EXPR', 'from_3_points:det-shared', match('(div _ $det)', e['cx'], g) is not None and match('(div _ $det)', e['cy'], g) is not None,
-                          'the determinant that is tested for collinearity is the one both centre coordinates are divided by', where=s)
-        cx.ob('GUARD', 'from_3_points:collinear', okg and len(rets) == 2, 'Err exactly under |det| < 1e-6; the circle is built only otherwise', where=b.file)
+    from_3_points_rules(cx)
     # ---------------------------------------------------------------- ransac
     b = cx.fn('geom2::circle2::Circle2::ransac')
     if b:
